@@ -61,6 +61,11 @@ func c05Scenario(p c05P, b Bounds) *Scenario {
 							vs.Yield("upcall-ret")
 							vs.Note("upcall-ret", errStr(err))
 						}
+						if r.Method() == "ctxwait" {
+							// a handler that returns when its context ends (the documentation promises that the
+							// context of a callback handler is cancelled when the client stops)
+							vs.Await(func() bool { return ctx.Err() != nil }, "callback ctx done")
+						}
 						if r.Method() == "gated" {
 							// a handler that does not return promptly when its context ends: released only
 							// when nothing else can move (in particular while a correct Close is waiting for it)
@@ -166,6 +171,20 @@ func c05Scenario(p c05P, b Bounds) *Scenario {
 							vs.Event("env", "callback")
 							peer.Send([]byte(`{"jsonrpc":"2.0","id":"cb3","method":"upcall"}`))
 						})
+					case "ccallback":
+						j.Go("ccallback", func() {
+							vs.Event("env", "callback")
+							peer.Send([]byte(`{"jsonrpc":"2.0","id":"cb4","method":"ctxwait"}`))
+						})
+					case "badreply":
+						j.Go("badreply", func() {
+							vs.Await(func() bool { return h.idOf("m0") != "" || h.peerDone || (p.Op == "notify" && len(h.reqs) > 0) }, "await request")
+							if id := h.idOf("m0"); id != "" {
+								// a reply to the pending id that is not a valid response object
+								vs.Event("env", "badreply")
+								h.send(fmt.Sprintf(`{"jsonrpc":"2.0","id":%s,"result":"X","extra":1}`, id))
+							}
+						})
 					case "gcallback":
 						j.Go("gcallback", func() {
 							vs.Event("env", "callback")
@@ -234,7 +253,19 @@ func c05Check(p c05P, x *vs.Exec) []Viol {
 	}
 	ret := x.Log[retAt]
 	stopCause := before(retAt, "call", "Close") || before(retAt, "env", "eof") || before(retAt, "env", "recverr") ||
-		before(retAt, "env", "malformed") || before(retAt, "env", "sendfault")
+		before(retAt, "env", "malformed") || before(retAt, "env", "sendfault") || before(retAt, "env", "badreply")
+	// a request whose Send failed must end at once with an error: nothing else may be needed to release it
+	for i, e := range x.Log {
+		if e.K == "out" && e.Arg(0) == "cli" && (strings.Contains(e.Arg(1), `"m0"`) || strings.Contains(e.Arg(1), `"bn"`)) && i+1 < len(x.Log) && x.Log[i+1].K == "fault" && x.Log[i+1].Arg(1) == "send" {
+			Hit("C05.R2")
+			if ret.Arg(1) == "sent" || ret.Arg(1) == "ok" {
+				v = append(v, Viol{"C05.R2", "the channel refused the request (Send failed), but the operation reported success: " + ret.Arg(1)})
+			}
+			if cl := findEv(x, 0, "quiet", "after-events"); cl >= 0 && retAt > cl && !has(p.Items, "close") {
+				v = append(v, Viol{"C05.R2", "the channel refused the request (Send failed), but the operation returned only after the client was closed"})
+			}
+		}
+	}
 	Hit("C05.R2")
 	replied := false
 	switch ret.Arg(1) {
@@ -314,6 +345,8 @@ func c05Check(p c05P, x *vs.Exec) []Viol {
 			}
 		}
 		switch {
+		case before(retAt, "env", "badreply"):
+			// ended by a reply that is not a valid response: whether that counts as "without a reply" is not specified
 		case replied && n != 0:
 			v = append(v, Viol{"C05.R4", fmt.Sprintf("OnCancel ran %d times for an answered request", n)})
 		case !replied && transmitted && n != 1 && before(len(x.Log), "peer-saw", "m0"):
@@ -392,7 +425,7 @@ func orderings(items []string) [][]string {
 	return out
 }
 
-var c05Events = []string{"reply", "cancel", "deadline", "close", "eof", "recverr", "malformed", "sendfault", "callback"}
+var c05Events = []string{"reply", "cancel", "deadline", "close", "eof", "recverr", "malformed", "sendfault", "callback", "badreply"}
 
 // c05Batch2: a Batch of two calls whose replies arrive as separate frames, in either order,
 // optionally with the batch context cancelled at an arbitrary moment. Every member must end with
@@ -658,7 +691,7 @@ func c05Scenarios(tier string) []*Scenario {
 			out = append(out, c05Scenario(c05P{Op: op, Items: o, Unblock: true}, Bounds{1, 2, 0}))
 		}
 	}
-	pairs := [][]string{{"ucallback", "close"}, {"ucallback", "eof"}, {"gcallback", "eof"}, {"gcallback", "close"}, {"gcallback", "recverr"}, {"gcallback", "malformed"}, {"reply", "cancel"}, {"reply", "close"}, {"cancel", "close"}, {"reply", "eof"}, {"reply", "deadline"}, {"close", "eof"},
+	pairs := [][]string{{"ccallback", "close"}, {"ccallback", "eof"}, {"badreply", "close"}, {"badreply", "cancel"}, {"ucallback", "close"}, {"ucallback", "eof"}, {"gcallback", "eof"}, {"gcallback", "close"}, {"gcallback", "recverr"}, {"gcallback", "malformed"}, {"reply", "cancel"}, {"reply", "close"}, {"cancel", "close"}, {"reply", "eof"}, {"reply", "deadline"}, {"close", "eof"},
 		{"reply", "recverr"}, {"cancel", "malformed"}, {"callback", "close"}, {"sendfault", "close"}, {"reply", "callback"}, {"deadline", "close"}}
 	for _, pr := range pairs {
 		if q {
